@@ -124,7 +124,7 @@ def showBond (b : Bond) : String := s!"{b.1}:{b.2.1}:{b.2.2}"
 def showVal : Val → String
   | .none => "none"
   | .atom a =>
-    "T|" ++ joinWith ";" ((sortCols a.annot).map (fun p => s!"{p.1}={p.2}")) ++ "|" ++ toString a.coord
+    "T|" ++ joinWith ";" ((sortCols a.annot).map (fun p => s!"{p.1}={p.2}")) ++ "|" ++ toString a.coord ++ "|f4"
   | .arr a =>
     let cols := if a.annot.isEmpty then "-" else joinWith ";" ((sortCols a.annot).map (fun p => p.1 ++ "=" ++ showNatsE p.2))
     let coord := if a.coord.isEmpty then "-" else joinWith "/" (a.coord.map showNatsE)
@@ -132,7 +132,16 @@ def showVal : Val → String
     let bonds := match a.bonds with
       | none => "-"
       | some b => toString b.count ++ ";" ++ (if b.bs.isEmpty then "_" else joinWith "," ((sortBonds b.bs).map showBond))
+    -- observed dtypes: the container stores float32 coordinates/boxes; the kind of a column follows its category
+    let kind (k : String) : String :=
+      if k == "res_id" then "i" else if k == "hetero" then "b"
+      else if mandatory.contains k then "U"
+      else match k.toList with
+        | 'i' :: _ => "i" | 'f' :: _ => "f" | 's' :: _ => "U" | 'b' :: _ => "b" | _ => "?"
+    let dt := "f4," ++ (if a.box.isSome then "f4" else "-") ++ ";" ++
+      joinWith "," ((sortCols a.annot).map (fun p => p.1 ++ ":" ++ kind p.1))
     (if a.stack then "S" else "A") ++ "|" ++ toString a.n ++ "|" ++ cols ++ "|" ++ coord ++ "|" ++ box ++ "|" ++ bonds
+      ++ "|" ++ dt
 
 def showAll (st : State) : String :=
   joinWith ";;" ((List.range 4).map (fun i => s!"r{i}=" ++ showVal (reg st i)))
